@@ -140,12 +140,12 @@ theorem clef_code :
     clefSignToInt "none" = some 6 ∧
     (∀ e ∈ CLEF_TO_INT, clefIntToSign e.2 = some e.1 ∧ clefSignToInt e.1 = some e.2) := by decide
 
-/-- the rows handed to the interpolators are the clefs with their sign codes (missing octave change = 0);
+/-- the rows handed to the interpolators are the clefs with their sign codes (missing line / octave change = 0);
     an unknown sign makes the map raise -/
 theorem clef_rows_spec (clefs : List RawClef) :
     (∀ rows, clefRows clefs = some rows →
       List.Forall₂ (fun (c : RawClef) (r : Int × ClefV) =>
-        r.1 = c.1 ∧ r.2.1 = c.2.1 ∧ clefSignToInt c.2.2.1 = some r.2.2.1 ∧ r.2.2.2.1 = c.2.2.2.1
+        r.1 = c.1 ∧ r.2.1 = c.2.1 ∧ clefSignToInt c.2.2.1 = some r.2.2.1 ∧ r.2.2.2.1 = c.2.2.2.1.getD 0
           ∧ r.2.2.2.2 = c.2.2.2.2.getD 0) clefs rows) ∧
     (clefRows clefs = none ↔ ∃ c ∈ clefs, clefSignToInt c.2.2.1 = none) := by
   induction clefs with
@@ -163,8 +163,9 @@ theorem clef_rows_spec (clefs : List RawClef) :
         | some rs =>
           simp only [hc, hrs, Option.some.injEq] at h
           subst h
-          refine .cons ⟨rfl, rfl, hc, rfl, ?_⟩ (ih.1 rs hrs)
-          cases oc <;> rfl
+          refine .cons ⟨rfl, rfl, hc, ?_, ?_⟩ (ih.1 rs hrs)
+          · cases line <;> rfl
+          · cases oc <;> rfl
     · unfold clefRows
       cases hc : clefSignToInt sign with
       | none => simp [hc]
@@ -266,10 +267,10 @@ theorem clef_unknown_sign (span : Span) (clefs : List RawClef) (others : List In
     (h : clefRows clefs = none) : clefMap span clefs others x = none := by
   unfold clefMap; rw [h]
 
-example : clefMap (some (0, 9)) [(0, 1, "G", 2, some 0), (4, 3, "F", 4, none), (6, 1, "C", 3, some (-1))] [2] 5
+example : clefMap (some (0, 9)) [(0, 1, "G", some 2, some 0), (4, 3, "F", some 4, none), (6, 1, "C", some 3, some (-1))] [2] 5
     = some [some (1, 0, 2, 0), some (2, 6, 0, 0), some (3, 1, 4, 0)] := by decide
 
-example : clefMap (some (0, 9)) [(0, 1, "G", 2, some 0), (4, 3, "F", 4, none), (6, 1, "C", 3, some (-1))] [2] 7
+example : clefMap (some (0, 9)) [(0, 1, "G", some 2, some 0), (4, 3, "F", some 4, none), (6, 1, "C", some 3, some (-1))] [2] 7
     = some [some (1, 2, 3, -1), some (2, 6, 0, 0), some (3, 1, 4, 0)] := by decide
 
 /-! ### measures -/
